@@ -275,15 +275,27 @@ func (c *Ctx) bodyElements(ia *interpAnchors) {
 		}
 		return typeIsNamed(ix.X.Type(), procT) || sliceOfNamed(ix.X, procT)
 	}
+	// the function that holds the dispatch: executeOne itself, or the function to which executeOne
+	// hands its object and its execute flag unchanged after its own bookkeeping (ext_f.go)
+	entry := fn
+	fn = c.dispatchFunction(ia)
+	fname = c.fname(fn)
 	// nested calls on body elements
 	n := 0
-	for _, call := range staticCalls(fn, fn) {
-		arg := call.Common().Args[1]
+	nested := staticCalls(fn, entry)
+	if fn != entry {
+		nested = append(nested, staticCalls(fn, fn)...)
+	}
+	for _, call := range nested {
+		arg, flagArg := objAndFlagArgs(call)
+		if arg == nil || flagArg == nil {
+			continue
+		}
 		if !isProcElem(arg) && !rangeElemOf(arg, procT) {
 			continue
 		}
 		n++
-		b, isC := constBool(call.Common().Args[2])
+		b, isC := constBool(flagArg)
 		c.check(isC && !b, "CTL-BODYELEM", fname, "element of a running body dispatched with execute=false (loop)", call.Pos(), "constant false",
 			"an element of a procedure body is dispatched with the execute flag set: a procedure literal inside a body would be run instead of pushed")
 	}
@@ -380,6 +392,15 @@ func isLoadResult(v ssa.Value, load *ssa.Function) bool {
 // lookupOrder: rule (3).
 func (c *Ctx) lookupOrder(ia *interpAnchors, f *ssa.Function) {
 	fname := c.fname(f)
+	// decided on the evaluator: every dictionary stack of up to four dictionaries × every subset
+	// that defines the name (ext_f.go); the shape of the scan is looked at only if that stops
+	bad, cells, decided := c.lookupByEvaluation(ia, f, f != ia.load)
+	if decided {
+		c.check(len(bad) == 0, "CTL-LOOKUP", fname, "dictionary stack scanned from the top, first hit wins", f.Pos(),
+			fmt.Sprintf("%d cells evaluated: stack depth 1..4 × which dictionaries define the name", cells),
+			"the name look-up does not return the definition in the topmost dictionary that has one: "+joinMax(bad, 3))
+		return
+	}
 	found := false
 	eachInstr(f, func(ins ssa.Instruction) {
 		ix, ok := ins.(*ssa.IndexAddr)
@@ -446,12 +467,26 @@ func (c *Ctx) lookupOrder(ia *interpAnchors, f *ssa.Function) {
 			fmt.Sprintf("the scan of the dictionary stack is not top-down with return at the first hit (start at len-1: %v, step -1: %v, while j>=0: %v, hit leaves loop: %v)", okInit, okStep, okCond, okHit))
 	})
 	if !found {
-		c.fail("CTL-LOOKUP", fname, "dictionary stack scan", f.Pos(), "no indexed scan of Interpreter.DictStack found")
+		c.fail("CTL-LOOKUP", fname, "dictionary stack scan", f.Pos(), "no indexed scan of Interpreter.DictStack found (and the evaluation of the look-up stops: "+strings.Join(bad, "; ")+")")
 	}
 }
 
 // bindLookup: bind resolves names through load (the dictionary stack).
 func (c *Ctx) bindLookup(ia *interpAnchors) {
+	// decided on the evaluator (ext_f.go): the operator is evaluated on a procedure with one
+	// element of every kind; the shape of the worker is looked at only if the evaluation stops
+	bad, decided, why := c.bindByEvaluation(ia)
+	if decided {
+		fn := c.registry().byKey["systemdict/bind"].fn
+		if w := c.bindWorker(ia); w != nil {
+			fn = w
+		}
+		c.check(len(bad) == 0, "CTL-BIND", c.fname(fn), "bind replaces exactly the names (and operator tokens) that the look-up through the dictionary stack resolves to operators, in nested procedures too", fn.Pos(),
+			"evaluated: operator in systemdict, operator token, shadowed operator, undefined name, non-operator value, non-name, nested and cyclic procedure",
+			"bind does not replace exactly the names whose definition, looked up from the top of the dictionary stack, is an operator: "+joinMax(bad, 4))
+		return
+	}
+	c.note("CTL-BIND: the evaluation of bind stops (%s); deciding on the shape of the worker", why)
 	f := c.bindWorker(ia)
 	if f == nil {
 		c.fail("CTL-BIND", "bindProc", "anchor", token.NoPos, "bindProc not found")
